@@ -246,15 +246,28 @@ def run(world, rep, tier, only=None):
     # leaves the mapping blocks out ("i_blocks is 256, should be 264" on the fresh file system).
     ORPH = "lib/ext2fs/orphan.c"
     cof = prog.fn("ext2fs_create_orphan_file", ORPH)
-    adds = calls_to(cof, "ext2fs_iblk_add_blocks")
-    sets_ = calls_to(cof, "ext2fs_iblk_set")
+    # the accounting may sit in a file-local helper of the function: its parameters stand for the caller's arguments
+    acct = [(cof, None)] + [(g, cn) for cn in cof.call_nodes() for g in prog.callees(cof, cn.ev["x"])
+                            if g.file == ORPH and g.static and g is not cof]
+
+    def caller_arg(g, cn, e):
+        e0 = T.strip(e) if isinstance(e, dict) else None
+        if cn is not None and isinstance(e0, dict) and e0.get("k") == "v" and e0.get("s") == "p" and e0["n"] in g.params:
+            i = g.params.index(e0["n"])
+            a = cn.ev["x"].get("a", [])
+            return a[i] if i < len(a) else e
+        return e
+    adds = [(g, cn, c) for (g, cn) in acct for c in calls_to(g, "ext2fs_iblk_add_blocks")]
+    sets_ = [(g, cn, c) for (g, cn) in acct for c in calls_to(g, "ext2fs_iblk_set")]
     rep.floor("C07.h i_blocks accounting calls in ext2fs_create_orphan_file", len(adds) + len(sets_), 1)
-    for i, c in enumerate(sets_):
-        rep.ob("C07.h", site(cof, "ext2fs_iblk_set() only resets the count#%d" % i), T.const(arg(c, 2)) == 0,
-               "third argument `%s` is 0 (the count itself is added from the allocation counter)" % T.pp(arg(c, 2))[:30])
+    for i, (g, cn, c) in enumerate(sets_):
+        v = caller_arg(g, cn, arg(c, 2))
+        rep.ob("C07.h", site(cof, "ext2fs_iblk_set() only resets the count#%d" % i), T.const(v) == 0,
+               "third argument `%s` is 0 (the count itself is added from the allocation counter)" % T.pp(v)[:30])
     charged = False
-    for c in adds:
-        lf = T.last_field(T.strip(arg(c, 2)) or {}) if isinstance(arg(c, 2), dict) else None
+    for (g_, cn_, c) in adds:
+        v = caller_arg(g_, cn_, arg(c, 2))
+        lf = T.last_field(T.strip(v) or {}) if isinstance(v, dict) else None
         if not lf:
             continue
         for g in prog.fns_in_file(ORPH):
